@@ -160,7 +160,7 @@ pub fn families() -> Vec<Box<dyn Family>> {
                 cutoffs.dedup();
                 let mut nonempty = false;
                 for &cutoff in &cutoffs {
-                    for n in [0usize, 1, 2, 3, 5] {
+                    for n in [0usize, 1, 2, 3, 5, usize::MAX, 1 << 62] {
                         check(&word, &refs, n, cutoff, out);
                     }
                     if refs.iter().any(|c| ratio(&word, c) >= cutoff) {
@@ -210,6 +210,98 @@ pub fn families() -> Vec<Box<dyn Family>> {
                 for n in 0..=cands.len() + 1 {
                     for cutoff in [0.0f32, 0.5, 0.6, ratio(&word, refs[0])] {
                         check(&word, &refs, n, cutoff, out);
+                    }
+                }
+            },
+        ),
+        family(
+            "huge_alphabet",
+            "words of 300..70000 DISTINCT characters (taken from U+10000.., so that word and candidates together cross 256 / 65536 distinct characters) and candidates derived by deleting / substituting / appending a few characters; the reference ratio is exact because for strings of distinct characters the LCS is a longest increasing subsequence",
+            false,
+            1,
+            |cfg| if cfg.tiny { 1 } else { cfg.tier.pick(12, 60) },
+            |idx, cfg, out| {
+                let mut rng = Rng::for_case(cfg.seed, "c18.huge_alphabet", idx);
+                let n = if cfg.tiny { 12 } else { *rng.pick(&[300usize, 1000, 40_000, 65_530, 66_000, 70_000]) };
+                let ch = |i: usize| char::from_u32(0x10000 + i as u32).unwrap();
+                let word: Vec<char> = (0..n).map(ch).collect();
+                let mut fresh = n;
+                let mut cands: Vec<Vec<char>> = Vec::new();
+                for _ in 0..1 + rng.below(3) {
+                    let mut c = word.clone();
+                    for _ in 0..rng.below(6) {
+                        match rng.below(3) {
+                            0 => {
+                                let i = rng.below(c.len());
+                                c.remove(i);
+                            }
+                            1 => {
+                                let i = rng.below(c.len());
+                                c[i] = ch(fresh);
+                                fresh += 1;
+                            }
+                            _ => {
+                                // a fresh block: pushes the number of distinct characters up
+                                let k = 1 + rng.below(if n > 5000 { 120 } else { 800 });
+                                let at = rng.below(c.len() + 1);
+                                let blk: Vec<char> = (0..k).map(|j| ch(fresh + j)).collect();
+                                fresh += k;
+                                c.splice(at..at, blk);
+                            }
+                        }
+                    }
+                    cands.push(c);
+                }
+                // an unrelated candidate
+                cands.push((0..50).map(|j| ch(fresh + j)).collect());
+                let word_s: String = word.iter().collect();
+                let cand_s: Vec<String> = cands.iter().map(|c| c.iter().collect()).collect();
+                let refs: Vec<&str> = cand_s.iter().map(|s| s.as_str()).collect();
+                // exact ratios via LIS
+                let pos: std::collections::HashMap<char, usize> = word.iter().enumerate().map(|(i, c)| (*c, i)).collect();
+                let ratios: Vec<f32> = cands
+                    .iter()
+                    .map(|c| {
+                        let seq: Vec<usize> = c.iter().filter_map(|x| pos.get(x).copied()).collect();
+                        let mut tails: Vec<usize> = Vec::new();
+                        for x in seq {
+                            match tails.binary_search(&x) {
+                                Ok(_) => {}
+                                Err(p) => {
+                                    if p == tails.len() {
+                                        tails.push(x)
+                                    } else {
+                                        tails[p] = x
+                                    }
+                                }
+                            }
+                        }
+                        2.0 * tails.len() as f32 / (word.len() + c.len()) as f32
+                    })
+                    .collect();
+                out.sample(|| format!("word of {} distinct chars, {} candidates, {} distinct chars overall", n, refs.len(), fresh + 50));
+                out.nontrivial(&(n, idx));
+                out.count("huge_alphabet_cases");
+                // (cutoff 0 would make the library diff the unrelated 50-char candidate against the
+                // whole word: quadratic by nature)
+                for cutoff in [0.3f32, ratios[0].max(0.3)] {
+                    for nn in [1usize, 3] {
+                        out.eval();
+                        let mut kept: Vec<(f32, &str)> = refs.iter().zip(ratios.iter()).filter(|(_, r)| **r >= cutoff).map(|(c, r)| (*r, *c)).collect();
+                        kept.sort_by(|a, b| b.0.partial_cmp(&a.0).unwrap().then_with(|| a.1.cmp(b.1)));
+                        let expect: Vec<&str> = kept.into_iter().take(nn).map(|x| x.1).collect();
+                        match guard(|| get_close_matches(word_s.as_str(), &refs, nn, cutoff)) {
+                            Err(p) => out.violation("panic", format!("get_close_matches panicked: {} | word of {} distinct chars, n={} cutoff={}", p, n, nn, cutoff)),
+                            Ok(got) => {
+                                if got != expect {
+                                    let show = |v: &[&str]| v.iter().map(|s| format!("<{} chars>", s.chars().count())).collect::<Vec<_>>();
+                                    out.violation(
+                                        "close_matches.differs_from_exhaustive_ranking",
+                                        format!("word of {} distinct chars, n={} cutoff={}: got {:?} expected {:?}; exact ratios {:?}", n, nn, cutoff, show(&got), show(&expect), ratios),
+                                    );
+                                }
+                            }
+                        }
                     }
                 }
             },
